@@ -636,9 +636,9 @@ func (u *Unmarshaler) processFieldNotFromString(fieldType reflect.Type, value re
 		}
 
 		return u.fillSliceFromString(fieldType, value, mapValue, fullName)
-	case valueKind == reflect.String && derefedFieldType == durationType:
+	case isStringValue(mapValue) && derefedFieldType == durationType:
 		return fillDurationValue(fieldType, value, mapValue.(string))
-	case valueKind == reflect.String && typeKind == reflect.Struct && u.implementsUnmarshaler(fieldType):
+	case isStringValue(mapValue) && typeKind == reflect.Struct && u.implementsUnmarshaler(fieldType):
 		return u.fillUnmarshalerStruct(fieldType, value, mapValue.(string))
 	default:
 		return u.processFieldPrimitive(fieldType, value, mapValue, opts, fullName)
@@ -1086,6 +1086,12 @@ func createValuer(v valuerWithParent, opts *fieldOptionsWithContext) valuerWithP
 		current: v,
 		parent:  v.Parent(),
 	}
+}
+
+// isStringValue tells whether v is a string, a json.Number has the kind string but is none.
+func isStringValue(v any) bool {
+	_, ok := v.(string)
+	return ok
 }
 
 func fillDurationValue(fieldType reflect.Type, value reflect.Value, dur string) error {
